@@ -77,6 +77,9 @@ type Config struct {
 	// instrumented packages) before which the running goroutine is pre-empted: PCT-style change points
 	// inside callee code, at the cost of a counter per statement.
 	Preempt []int
+	// Quantum > 0: in addition, the running goroutine is pre-empted every Quantum such statements (time slicing
+	// by a logical clock: what a pre-emptive scheduler does, but replayable).
+	Quantum int
 }
 
 type Result struct {
@@ -202,7 +205,7 @@ func (s *Sched) park(g *G, site, kind string) {
 func (s *Sched) Yield(site, kind string) {
 	if len(kind) == 5 && kind[0] == 'p' { // "pstmt": counted pre-emption point
 		s.pcount++
-		if s.pidx >= len(s.cfg.Preempt) || s.pcount < s.cfg.Preempt[s.pidx] {
+		if !(s.cfg.Quantum > 0 && s.pcount%s.cfg.Quantum == 0) && (s.pidx >= len(s.cfg.Preempt) || s.pcount < s.cfg.Preempt[s.pidx]) {
 			return
 		}
 		g := s.self()
@@ -477,7 +480,8 @@ func (s *Sched) loop(done chan struct{}) (deadlock, budget bool, blocked []strin
 			s.trace[s.ntrace] = Step{pick.ID, pick.site, pick.kind, n}
 			s.ntrace++
 		}
-		over := s.cfg.MaxSteps > 0 && s.steps > s.cfg.MaxSteps
+		// the budget is about decisions the system asks for; pre-emptions injected by the simulator are bounded by the statement count
+		over := s.cfg.MaxSteps > 0 && s.steps-s.pfired > s.cfg.MaxSteps
 		s.mu.Unlock()
 		if over {
 			return false, true, nil
